@@ -23,8 +23,9 @@ def scenario(args):
     import logging
     logging.disable(logging.CRITICAL)
     from .pdrv import PDriver
-    ext, flavour, kind, pos, k, check_load, seed = args
-    d = PDriver(ext, flavour=flavour, seed=seed)
+    ext, flavour, kind, pos, k, check_load, seed = args[:7]
+    symlink = len(args) > 7 and args[7]   # persistence file configured through a symbolic link into another directory
+    d = PDriver(ext, flavour=flavour, seed=seed, symlink=symlink)
     try:
         d.mutate()
         d.mutate()
@@ -53,7 +54,7 @@ def scenario(args):
             d.startup()
     finally:
         d.close()
-    return d.trace({"kind": kind, "pos": pos, "k": k, "check_load": check_load})
+    return d.trace({"kind": kind, "pos": pos, "k": k, "check_load": check_load, "symlink": symlink})
 
 
 def run(tier):
@@ -66,13 +67,17 @@ def run(tier):
         tlc.must_ok(r, cfgname)
         rep.add_tlc(cfgname, r)
     jobs = []
-    for ext, nops in (("json", 30), ("pickle", 12)):
+    from .c12 import count_ops
+    for ext in ("json", "pickle"):
+        nops = count_ops(ext, 0, "good") + 1       # every operation of a save that replaces an existing file
         for flavour in ("sync", "async"):
             for pos in (0, 1, 2):
-                ks = range(nops) if tier == "thorough" else (range(nops) if pos == 1 else range(0, nops, 3))
+                ks = range(nops) if tier == "thorough" else (range(nops) if pos == 1 else list(range(0, nops, 3)) + [nops - 3, nops - 2, nops - 1])
                 for k in ks:
                     for check_load in (False, True):
                         jobs.append((ext, flavour, "fail", pos, k, check_load, len(jobs)))
+                        if k >= nops - 5:       # renames / remove: also with a symlinked persistence file
+                            jobs.append((ext, flavour, "fail", pos, k, check_load, len(jobs), True))
                 for k in range(0, 8 if tier == "quick" else 14):
                     jobs.append((ext, flavour, "contend", pos, k, False, len(jobs)))
                     jobs.append((ext, flavour, "contend", pos, k, True, len(jobs)))
@@ -86,7 +91,7 @@ def run(tier):
     noticed = 0
     for t in traces:
         c = t["cfg"]
-        rep.nontrivial((c["ext"], c["flavour"], c["kind"], c["pos"], c["k"], c["check_load"]))
+        rep.nontrivial((c["ext"], c["flavour"], c["kind"], c["pos"], c["k"], c["check_load"], c["symlink"]))
         noticed += any(e["a"] == "Mutate" and e["noticed"] for e in t["ev"])
     rep.cov["saves_aborted_by_concurrent_change"] = noticed
     for r in rej:
